@@ -600,9 +600,13 @@ func (w *netWorld) classify(pb *netPub) {
 		}
 	}
 	// degree bounds within which the random peer selections are exhaustive
+	// A mesh that REACHES Dhi is cut back to D at the next heartbeat (and a node at Dhi refuses
+	// GRAFTs), with a back-off for the pruned peer: a node whose neighbours all need it can then
+	// oscillate for ever and the meshes never settle. Below Dhi nobody is ever pruned for size, every
+	// node keeps min(degree, Dlo) mesh links, and the at most Dlazy others are all gossiped to.
 	gsBound := w.gp.Dlo + w.gp.Dlazy
-	if w.gp.Dhi < gsBound {
-		gsBound = w.gp.Dhi
+	if w.gp.Dhi-1 < gsBound {
+		gsBound = w.gp.Dhi - 1
 	}
 	check := append([]int(nil), members...)
 	if !in[pb.node] {
